@@ -312,6 +312,31 @@ func c18Run(r *core.Run) {
 			r.EndItem()
 		}
 	}
+	// whole-register faults on measured RTMRs: reset value, all ones, another register's value
+	for reg := 0; reg < 4; reg++ {
+		if !measured[reg] {
+			continue
+		}
+		vals := map[string][48]byte{"zero": {}, "ones": {}, "other-register": q.Rtmr[(reg+1)%4]}
+		ones := vals["ones"]
+		for i := range ones {
+			ones[i] = 0xff
+		}
+		vals["ones"] = ones
+		for _, k := range core.SortedKeys(vals) {
+			item := fmt.Sprintf("rtmr-set:%d=%s", reg, k)
+			if vals[k] == q.Rtmr[reg] || !r.Item(item) {
+				continue
+			}
+			x := q.Clone()
+			x.Rtmr[reg] = vals[k]
+			x.SignBody(w.P.AK)
+			st, o := call(x, noPolicy(), O0, true, ccel)
+			judge(item, fmt.Sprintf("replay-mismatch:rtmr%d-%s", reg, k), true, fmt.Sprintf("RTMR%d of the (validly signed) quote is %s, the log replays to another value", reg, k), st, o)
+			r.State("rtmr-set reg=%d %s", reg, k)
+			r.EndItem()
+		}
+	}
 	r.Fault("platform:rtmr_bitflip_resigned", true)
 	// --- a digest flipped inside the log instead of in the quote
 	for i := 0; i < 6 && len(offs) > 0; i++ {
